@@ -86,7 +86,10 @@ func (c *Collector) flush() {
 	sort.Strings(c.Hashes)
 	bz, _ := json.MarshalIndent(c, "", " ")
 	_ = os.MkdirAll(dir, 0o755)
-	_ = os.WriteFile(filepath.Join(dir, "stats-"+c.Property+".json"), bz, 0o644)
+	tmp := filepath.Join(dir, "stats-"+c.Property+".json.tmp")
+	if os.WriteFile(tmp, bz, 0o644) == nil {
+		_ = os.Rename(tmp, filepath.Join(dir, "stats-"+c.Property+".json"))
+	}
 }
 
 // knownSigs loads "property:signature" entries with status "known" from the committed findings file.
